@@ -85,7 +85,8 @@ class Boolean(object):
                 env[args] = b.args
 
                 if isinstance(b, CaselessPredicate):
-                    return func + "(value.lower(), " + "*" + args + ")"
+                    # like CaselessPredicate.test: only strings are lower-cased
+                    return func + "((value.lower() if isinstance(value, str) else value), " + "*" + args + ")"
                 return func + "(value, " + "*" + args + ")"
             else:
                 raise Exception(b)
